@@ -386,7 +386,7 @@ def run_actmerge(case, ctx):
         got = []
         if os.path.exists(log):
             with open(log) as f:
-                got = f.read().split()
+                got = f.read().split('\n')[:-1]  # one line per executed source line / instruction
         exp = [t for p in ('setup', 'act', 'before-assert', 'assert', 'cleanup') for t in want[p]]
         if r.exc is not None or r.rc != 0:
             viol.append({'what': 'C07 valid document with [act] declared %d times does not PASS: rc=%r %s'
@@ -415,7 +415,7 @@ def cases(tier, seed):
             yield {'kind': 'parse', 'doc': {'name': 'main.case', 'items': _assign_ids(items),
                                             'final_nl': (sum(combo) % 3 != 0)}}
     # ---- fixed inclusion shapes ----------------------------------------------------------------------------
-    for shape in ('self', 'cycle2', 'cycle3', 'cycle_to_root2', 'cycle_to_root3', 'cycle_to_root_implicit_act', 'diamond', 'missing', 'unknown_phase', 'unknown_phase_in_included',
+    for shape in ('self', 'cycle2', 'cycle3', 'cycle_to_root2', 'cycle_to_root3', 'cycle_to_root_implicit_act', 'include_symlink_loop', 'include_symlink_loop2', 'include_dangling_link', 'diamond', 'missing', 'unknown_phase', 'unknown_phase_in_included',
                   'cycle_via_dotdot', 'include_dir', 'unknown_phase_then_valid_header', 'unknown_phase_first_line',
                   'unknown_phase_last_line', 'same_file_twice_different_phases'):
         for ph in ('setup', 'cleanup', 'assert'):
@@ -959,6 +959,19 @@ def run_graph(case, ctx):
     elif shape == 'missing':
         files['main.case'] = '[%s]\nincluding a.xly\n' % ph
         files['a.xly'] = 'including does-not-exist.xly\n'
+        expect = 'FILE_ACCESS_ERROR'
+    elif shape == 'include_symlink_loop':
+        files['main.case'] = '[%s]\nincluding lib/loop.xly\n' % ph
+        files['lib/loop.xly'] = ('symlink', 'loop.xly')
+        expect = 'FILE_ACCESS_ERROR'
+    elif shape == 'include_symlink_loop2':
+        files['main.case'] = '[%s]\nincluding a.xly\n' % ph
+        files['a.xly'] = ('symlink', 'b.xly')
+        files['b.xly'] = ('symlink', 'a.xly')
+        expect = 'FILE_ACCESS_ERROR'
+    elif shape == 'include_dangling_link':
+        files['main.case'] = '[%s]\nincluding a.xly\n' % ph
+        files['a.xly'] = ('symlink', 'nowhere.xly')
         expect = 'FILE_ACCESS_ERROR'
     elif shape == 'include_dir':
         files['main.case'] = '[%s]\nincluding adir\n' % ph
